@@ -42,7 +42,7 @@ func runOverflowQuiet(r *mon.Run, idx int, count int, single bool) {
 	if want > maxPenalty {
 		want = maxPenalty
 	}
-	if tEnd.Sub(tFill) > time.Second {
+	if tEnd.Sub(tFill) > 2500*time.Millisecond { // all failures must fall inside one 3 s penalty window
 		r.Event("skipped_overflow_fill_too_slow", 1)
 		return
 	}
